@@ -40,7 +40,15 @@ GLab(th, eta) == << -th[2]*th[2]*eta[3], -th[2]*th[1]*eta[2], th[2]*th[1]*eta[1]
 
 VARIABLES cs, stage
 vars == <<cs, stage>>
-Init == (cs \in Cases \/ cs \in Unreach) /\ stage = "construct"
+(* thorough tier: the full product of the generated angle sets, enumerated by TLC itself *)
+Zero == <<1, 0, 1>>
+Product == {[kind |-> "reach", solver |-> sv, th |-> th, eta |-> eta, om |-> om, t1 |-> t1, t2 |-> t2,
+             al |-> Zero, be |-> Zero, sgn |-> 1] :
+              sv \in PSolvers, th \in PTh, eta \in PEta, om \in POm, t1 \in PTilt, t2 \in PTilt}
+ProductOK(c) == /\ (c.solver = "plain" => c.t1 = Zero /\ c.t2 = Zero)
+                /\ (c.solver = "wedge" => c.t1 = Zero)
+                /\ (c.solver = "quart" => c.t1[3] * c.t2[3] <= 1625)
+Init == (cs \in Cases \/ cs \in Unreach \/ (cs \in Product /\ ProductOK(cs))) /\ stage = "construct"
 Solve == stage = "construct" /\ stage' = "solved" /\ UNCHANGED cs
 Next == Solve
 Spec == Init /\ [][Next]_vars
@@ -49,6 +57,14 @@ IsCase == cs.kind = "reach"
 (* the constructed solution is a double root (tangency) iff the x-component of n x g_lab vanishes *)
 TangencyNum == LET a == Axis(cs.solver, cs.t1, cs.t2) IN a.n[2]*cs.eta[1] + a.n[3]*cs.eta[2]
 Tangent == TangencyNum = 0
+(* doubly degenerate: g parallel to the rotation axis and on the Bragg cone - EVERY omega diffracts, the solvers' equation
+   a cos w + b sin w = c has a = b = c = 0 and no finite answer is meaningful.  Excluded from every claim (it is inside the
+   property's tangency exclusion).  n x g_lab = 0, decided on the numerators (g_lab scaled by 1/(s c) where possible). *)
+Degenerate == LET a == Axis(cs.solver, cs.t1, cs.t2)
+                  g == << -cs.th[2]*cs.eta[3], -cs.th[1]*cs.eta[2], cs.th[1]*cs.eta[1] >>      \* g_lab / (s/(d^2 d_e)) 
+              IN /\ a.n[2]*g[3] - a.n[3]*g[2] = 0
+                 /\ a.n[3]*g[1] - a.n[1]*g[3] = 0
+                 /\ a.n[1]*g[2] - a.n[2]*g[1] = 0
 (* |g_lab|^2 = sin^2 theta, checked where it fits 32 bits *)
 NormExact == (IsCase /\ cs.th[3] <= 101 /\ cs.th[2]*cs.th[3]*cs.eta[3] <= 46000) =>
     Dot(GLab(cs.th, cs.eta), GLab(cs.th, cs.eta)) = cs.th[2]*cs.th[2]*cs.th[3]*cs.th[3]*cs.eta[3]*cs.eta[3]
@@ -69,7 +85,7 @@ Emit == stage = "solved" =>
    PrintT("@@" \o ToJson(
      IF IsCase
        THEN [cs |-> cs, N |-> OmegaMat(cs.solver, cs.om, cs.t1, cs.t2).N, den |-> OmegaMat(cs.solver, cs.om, cs.t1, cs.t2).den,
-             tangent |-> Tangent, tangnum |-> TangencyNum,
+             tangent |-> Tangent, degenerate |-> (cs.th[3] <= 101 /\ Degenerate), tangnum |-> TangencyNum,
              tangden |-> Axis(cs.solver, cs.t1, cs.t2).den * cs.eta[3]]
        ELSE [cs |-> cs, P |-> Tilt(cs.solver, cs.t1, cs.t2).N, pden |-> Tilt(cs.solver, cs.t1, cs.t2).den,
              unreachable |-> UnreachExact]))
